@@ -117,7 +117,8 @@ mutant('c13-type-leak', 'C13', UN,
 mutant('c13-functors-no-deepcopy', 'C13', FU,
        "    new_rules = copy.deepcopy(self.rules)\n    for p, style in should_recurse.items():\n",
        "    new_rules = self.rules\n    for p, style in should_recurse.items():\n",
-       'recursion unfolding mutates the caller-owned rules: a reused rules object compiles differently')
+       'recursion unfolding mutates the caller-owned rules; the unfolding happens to be idempotent (a second '
+       'compile of the already unfolded rules emits the same SQL), so this may be output-equivalent', expect='any')
 mutant('c13-sql-cache-by-name', 'C13', UN,
        "  def FormattedPredicateSql(self, name, allocator=None):\n    \"\"\"Printing top-level formatted SQL statement with defines and exports.\"\"\"\n",
        "  _SQL_CACHE = {}\n\n  def FormattedPredicateSql(self, name, allocator=None):\n    \"\"\"Printing top-level formatted SQL statement with defines and exports.\"\"\"\n    key = (name, len(self.rules))\n    if key in LogicaProgram._SQL_CACHE and allocator is None:\n      self.InitializeExecution(name)\n      return LogicaProgram._SQL_CACHE[key]\n    LogicaProgram._SQL_CACHE[key] = self._FormattedPredicateSql(name, allocator)\n    return LogicaProgram._SQL_CACHE[key]\n\n  def _FormattedPredicateSql(self, name, allocator=None):\n    \"\"\"Printing top-level formatted SQL statement with defines and exports.\"\"\"\n",
